@@ -287,8 +287,394 @@ Proof.
       split; [rewrite Hr; apply Hna|]. right. exists d0, z. auto.
     + assert (H' : ([], q, CRes rz) = (d, q', r)) by (destruct rz; [contradiction| |]; assumption).
       inversion H'; subst. split; [reflexivity|]. split; [constructor|]. split; [symmetry; assumption|].
-      split; [discriminate|]. left. split; [reflexivity|]. rewrite Er. intros Hc; inversion Hc; contradiction.
+      split; [discriminate|]. left. split; [reflexivity|]. congruence.
   - inversion H; subst. split; [reflexivity|]. split; [constructor|]. split; [symmetry; assumption|].
-    split; [discriminate|]. left. split; [reflexivity|]. rewrite Er. discriminate.
+    split; [discriminate|]. left. split; [reflexivity|]. congruence.
   - exfalso. eapply Hna; eauto.
 Qed.
+
+(* ---- EventLoop::runOnce ------------------------------------------------------------------------ *)
+Lemma loop_iter_spec fuel : forall now inv q pend idle delay fired,
+  (length q + match pend with [] => 1 | _ => 2 end <= fuel)%nat ->
+  ev_loop_iter fuel now inv q pend idle delay fired <> LFuel /\
+  ev_loop_iter fuel now inv q pend idle delay fired <> LAssert /\
+  forall q' i dl fr, ev_loop_iter fuel now inv q pend idle delay fired = LDone q' i dl fr -> exists dd, q = dd ++ q'.
+Proof.
+  induction fuel as [|k IH]; intros now inv q pend idle delay fired Hf.
+  - exfalso. destruct pend; lia.
+  - cbn [ev_loop_iter].
+    destruct (ev_check_events now inv q) as [[d q1] r] eqn:Ec.
+    destruct (check_events_spec now inv q d q1 r Ec) as (Hq & _ & _ & Hna & _).
+    destruct r as [rz| |]; [|repeat split; try discriminate|contradiction].
+    destruct (pend ++ d) as [|c cs] eqn:Ecalls.
+    + repeat split; try discriminate. intros q' i dl fr H. inversion H; subst. exists d. reflexivity.
+    + assert (Hk : (length q1 + 1 <= k)%nat).
+      { subst q. rewrite app_length in Hf. destruct d as [|d0 d']; cbn [length] in *.
+        - destruct pend; [discriminate|]. lia.
+        - destruct pend; lia. }
+      destruct (IH now inv q1 [] false
+                   (if rz <? 0 then delay else if rz <? delay then rz else delay)
+                   (fired ++ ev_dispatch inv (c :: cs)) Hk) as (H1 & H2 & H3).
+      repeat split; [assumption|assumption|].
+      intros q' i dl fr H. destruct (H3 q' i dl fr H) as [dd Hdd]. exists (d ++ dd). subst q q1. apply app_assoc.
+Qed.
+
+Lemma loop_once_spec now inv q pend :
+  ev_loop_once now inv q pend <> LFuel /\ ev_loop_once now inv q pend <> LAssert /\
+  forall q' i dl fr, ev_loop_once now inv q pend = LDone q' i dl fr -> exists dd, q = dd ++ q'.
+Proof. unfold ev_loop_once. apply loop_iter_spec. destruct pend; lia. Qed.
+
+(* ---- the invariant of all histories ------------------------------------------------------------ *)
+Definition ev_inv (s : est) : Prop :=
+  StronglySorted ev_lt (s_q s) /\
+  Forall (fun x => (e_id x < s_next s)%N) (s_pend s ++ s_q s) /\
+  NoDup (map e_id (s_pend s ++ s_q s)).
+
+Definition ev_reachable (s : est) : Prop := exists t0 ops, snd (ev_run (ev_init t0) ops) = s.
+
+Lemma run_cons s o r : ev_run s (o :: r) =
+  (snd (ev_step s o) :: fst (ev_run (fst (ev_step s o)) r), snd (ev_run (fst (ev_step s o)) r)).
+Proof. cbn [ev_run]. destruct (ev_step s o) as [s1 out]. cbn [fst snd]. destruct (ev_run s1 r); reflexivity. Qed.
+
+Lemma inv_sub s pend' q' next' now' inv' :
+  ev_inv s -> sub (pend' ++ q') (s_pend s ++ s_q s) -> sub q' (s_q s) -> (s_next s <= next')%N ->
+  ev_inv (mkSt now' next' q' pend' inv').
+Proof.
+  intros (HS & HF & HN) Hsub Hq Hn. unfold ev_inv; cbn [s_q s_pend s_next]. repeat split.
+  - eapply sub_sorted; eauto.
+  - eapply sub_Forall; [eassumption|]. rewrite Forall_forall in *. intros x Hx. specialize (HF x Hx). lia.
+  - eapply sub_NoDup; [apply sub_map; eassumption | assumption].
+Qed.
+
+Lemma step_inv s o s1 out : ev_inv s -> ev_step s o = (s1, out) -> ev_inv s1.
+Proof.
+  intros Hinv H. pose proof Hinv as (HS & HF & HN). destruct o; cbn [ev_step] in H.
+  - (* schedule *)
+    inversion H; subst; clear H. unfold ev_inv; cbn [s_q s_pend s_next].
+    set (e := mkEv (s_next s) f a (ev_timestamp (s_now s) w) wt cb).
+    assert (HFq : Forall (fun x => (e_id x < s_next s)%N) (s_q s)).
+    { rewrite Forall_forall in *. intros x Hx. apply HF. apply in_or_app; right; assumption. }
+    repeat split.
+    + apply insert_sorted; assumption.
+    + rewrite Forall_forall in *. intros x Hx. apply in_app_or in Hx. destruct Hx as [Hx|Hx].
+      * specialize (HF x (in_or_app _ _ _ (or_introl Hx))). lia.
+      * apply insert_In in Hx. destruct Hx as [->|Hx]; [cbn; lia|].
+        specialize (HF x (in_or_app _ _ _ (or_intror Hx))). lia.
+    + assert (Hp : Permutation (s_pend s ++ ev_insert e (s_q s)) (e :: s_pend s ++ s_q s)).
+      { rewrite (insert_perm e (s_q s)). symmetry. apply Permutation_middle. }
+      apply (Permutation_map e_id) in Hp. eapply Permutation_NoDup; [symmetry; exact Hp|].
+      cbn [map]. constructor; [|assumption]. cbn [e_id e]. intros Hin. apply in_map_iff in Hin.
+      destruct Hin as (y & Hy & Hin). rewrite Forall_forall in HF. specialize (HF y Hin). lia.
+  - (* cancel *)
+    destruct (ev_cancel f a (s_q s)) as [q' trap] eqn:Ec. inversion H; subst; clear H.
+    pose proof (cancel_sub f a (s_q s)) as Hs. rewrite Ec in Hs. cbn [fst] in Hs.
+    eapply inv_sub; eauto; [apply sub_app_l; assumption | lia].
+  - inversion H; subst. eapply inv_sub; eauto; [apply sub_refl | apply sub_refl | lia].
+  - (* checkEvents *)
+    destruct (ev_check_events (s_now s) (s_inv s) (s_q s)) as [[d q'] r] eqn:Ec. inversion H; subst; clear H.
+    destruct (check_events_spec _ _ _ _ _ _ Ec) as (Hq & _).
+    eapply inv_sub; eauto; [|rewrite Hq; apply sub_app_drop | lia].
+    rewrite <- app_assoc, <- Hq. apply sub_refl.
+  - inversion H; subst. eapply inv_sub; eauto; [cbn [app]; apply sub_app_drop | apply sub_refl | lia].
+  - inversion H; subst. assumption.
+  - inversion H; subst. eapply inv_sub; eauto; [apply sub_refl | apply sub_refl | lia].
+  - inversion H; subst. assumption.
+  - (* runOnce *)
+    destruct (loop_once_spec (s_now s) (s_inv s) (s_q s) (s_pend s)) as (_ & _ & Hd).
+    destruct (ev_loop_once (s_now s) (s_inv s) (s_q s) (s_pend s)) as [q' i dl fr| | |] eqn:El;
+      inversion H; subst; try assumption.
+    destruct (Hd q' i dl fr eq_refl) as [dd Hdd].
+    eapply inv_sub; eauto; [|rewrite Hdd; apply sub_app_drop | lia].
+    cbn [app]. rewrite Hdd, app_assoc. apply sub_app_drop.
+Qed.
+
+Lemma run_inv ops : forall s, ev_inv s -> ev_inv (snd (ev_run s ops)).
+Proof.
+  induction ops as [|o r IH]; intros s Hs; [assumption|].
+  rewrite run_cons. cbn [snd]. apply IH. destruct (ev_step s o) as [s1 out] eqn:E. eapply step_inv; eauto.
+Qed.
+
+Lemma init_inv t0 : ev_inv (ev_init t0).
+Proof. unfold ev_inv, ev_init; cbn. repeat split; constructor. Qed.
+
+Lemma reachable_inv s : ev_reachable s -> ev_inv s.
+Proof. intros (t0 & ops & <-). apply run_inv, init_inv. Qed.
+
+Lemma sorted_app_lt {A} (R : A -> A -> Prop) l1 l2 :
+  StronglySorted R (l1 ++ l2) -> forall x y, In x l1 -> In y l2 -> R x y.
+Proof.
+  induction l1 as [|a l1 IH]; cbn; intros HS x y Hx Hy; [contradiction|].
+  inversion HS as [|? ? HS' HF]; subst. destruct Hx as [->|Hx]; [|eauto].
+  rewrite Forall_forall in HF. apply HF. apply in_or_app; right; assumption.
+Qed.
+
+(* ---- where queued events come from ------------------------------------------------------------- *)
+Lemma step_members s o s1 out : ev_step s o = (s1, out) ->
+  (s_next s <= s_next s1)%N /\
+  forall y, In y (s_pend s1 ++ s_q s1) ->
+    In y (s_pend s ++ s_q s) \/
+    exists f a w wt cb, o = OSched f a w wt cb /\ y = mkEv (s_next s) f a (ev_timestamp (s_now s) w) wt cb.
+Proof.
+  intros H. destruct o; cbn [ev_step] in H.
+  - inversion H; subst; clear H. cbn [s_next s_pend s_q]. split; [lia|]. intros y Hy.
+    apply in_app_or in Hy. destruct Hy as [Hy|Hy]; [left; apply in_or_app; auto|].
+    apply insert_In in Hy. destruct Hy as [->|Hy]; [right; repeat eexists | left; apply in_or_app; auto].
+  - destruct (ev_cancel f a (s_q s)) as [q' trap] eqn:Ec. inversion H; subst; clear H.
+    pose proof (cancel_sub f a (s_q s)) as Hs. rewrite Ec in Hs. cbn [fst] in Hs.
+    cbn [s_next s_pend s_q]. split; [lia|]. intros y Hy. left.
+    eapply sub_In; [apply sub_app_l; eassumption | assumption].
+  - inversion H; subst. cbn. split; [lia|auto].
+  - destruct (ev_check_events (s_now s) (s_inv s) (s_q s)) as [[d q'] r] eqn:Ec. inversion H; subst; clear H.
+    destruct (check_events_spec _ _ _ _ _ _ Ec) as (Hq & _).
+    cbn [s_next s_pend s_q]. split; [lia|]. intros y Hy. left. rewrite <- app_assoc, <- Hq in Hy. assumption.
+  - inversion H; subst. cbn [s_next s_pend s_q app]. split; [lia|]. intros y Hy. left. apply in_or_app; auto.
+  - inversion H; subst. split; [lia|auto].
+  - inversion H; subst. cbn. split; [lia|auto].
+  - inversion H; subst. split; [lia|auto].
+  - destruct (loop_once_spec (s_now s) (s_inv s) (s_q s) (s_pend s)) as (_ & _ & Hd).
+    destruct (ev_loop_once (s_now s) (s_inv s) (s_q s) (s_pend s)) as [q' i dl fr| | |] eqn:El;
+      inversion H; subst; try (split; [lia|auto]).
+    destruct (Hd q' i dl fr eq_refl) as [dd Hdd].
+    cbn [s_next s_pend s_q app]. split; [lia|]. intros y Hy. left. rewrite Hdd.
+    apply in_or_app; right. apply in_or_app; auto.
+Qed.
+
+(* the events created by the schedule() calls of a history, with the due time computed from the clock at
+   the time of the call: now + when, or 0 for when <= 0 *)
+Fixpoint ev_created (now : Z) (next : N) (ops : list eop) : list ev :=
+  match ops with
+  | [] => []
+  | OSched f a w wt cb :: r => mkEv next f a (ev_timestamp now w) wt cb :: ev_created now (N.succ next) r
+  | OClock t :: r => ev_created t next r
+  | _ :: r => ev_created now next r
+  end.
+
+Lemma run_members ops : forall s y, In y (s_pend (snd (ev_run s ops)) ++ s_q (snd (ev_run s ops))) ->
+  In y (s_pend s ++ s_q s) \/ In y (ev_created (s_now s) (s_next s) ops).
+Proof.
+  induction ops as [|o r IH]; intros s y Hy; [left; assumption|].
+  rewrite run_cons in Hy. cbn [snd] in Hy.
+  destruct (ev_step s o) as [s1 out] eqn:E. cbn [fst] in Hy.
+  destruct (step_members s o s1 out E) as (_ & Hm).
+  destruct (IH s1 y Hy) as [H1|H1].
+  - destruct (Hm y H1) as [H2|(f & a & w & wt & cb & -> & ->)]; [left; assumption|].
+    right. cbn [ev_created]. left. reflexivity.
+  - right. destruct o; cbn [ev_step] in E; cbn [ev_created].
+    + inversion E; subst. cbn [s_now s_next] in H1. right. assumption.
+    + destruct (ev_cancel f a (s_q s)); inversion E; subst. assumption.
+    + inversion E; subst. assumption.
+    + destruct (ev_check_events (s_now s) (s_inv s) (s_q s)) as [[d q'] r0]; inversion E; subst. assumption.
+    + inversion E; subst. assumption.
+    + inversion E; subst. assumption.
+    + inversion E; subst. assumption.
+    + inversion E; subst. assumption.
+    + destruct (ev_loop_once (s_now s) (s_inv s) (s_q s) (s_pend s)); inversion E; subst; assumption.
+Qed.
+
+(* ---- an id that is gone stays gone ------------------------------------------------------------- *)
+Definition ev_absent (i : N) (s : est) : Prop :=
+  (i < s_next s)%N /\ ~ In i (map e_id (s_pend s ++ s_q s)).
+
+Lemma step_absent i s o s1 out : ev_absent i s -> ev_step s o = (s1, out) -> ev_absent i s1.
+Proof.
+  intros (Hlt & Hni) H. destruct (step_members s o s1 out H) as (Hn & Hm). split; [lia|].
+  intros Hin. apply in_map_iff in Hin. destruct Hin as (y & Hy & Hin).
+  destruct (Hm y Hin) as [H1|(f & a & w & wt & cb & _ & ->)].
+  - apply Hni. rewrite <- Hy. apply in_map. assumption.
+  - cbn in Hy. lia.
+Qed.
+
+Lemma run_absent i ops : forall s, ev_absent i s -> ev_absent i (snd (ev_run s ops)).
+Proof.
+  induction ops as [|o r IH]; intros s Hs; [assumption|].
+  rewrite run_cons. cbn [snd]. apply IH. destruct (ev_step s o) as [s1 out] eqn:E. eapply step_absent; eauto.
+Qed.
+
+Lemma NoDup_map_app_disjoint {A B} (f : A -> B) l1 l2 x :
+  NoDup (map f (l1 ++ l2)) -> In x l1 -> In x l2 -> False.
+Proof.
+  induction l1 as [|a l1 IH]; cbn; intros HN H1 H2; [contradiction|].
+  inversion HN as [|? ? Hni HN']; subst. destruct H1 as [->|H1]; [|eauto].
+  apply Hni. apply in_map. apply in_or_app; right; assumption.
+Qed.
+
+(* ================================================================================================ *)
+(* the statements used by Properties_C59.v                                                           *)
+
+(* 1. in every reachable state the queue is strictly ordered by (due time, sequence number) *)
+Theorem queue_ordered s : ev_reachable s ->
+  StronglySorted ev_lt (s_q s) /\ Forall (fun x => (e_id x < s_next s)%N) (s_q s).
+Proof.
+  intros H. destruct (reachable_inv s H) as (HS & HF & _). split; [assumption|].
+  rewrite Forall_forall in *. intros x Hx. apply HF. apply in_or_app; right; assumption.
+Qed.
+
+(* 2. never early, in any state whatsoever *)
+Theorem never_early s s1 r d : ev_step s OCheck = (s1, RCheck r d) ->
+  Forall (fun x => e_when x <= s_now s) d /\ s_q s = d ++ s_q s1 /\ s_pend s1 = s_pend s ++ d /\ r <> CAssert.
+Proof.
+  cbn [ev_step]. destruct (ev_check_events (s_now s) (s_inv s) (s_q s)) as [[d' q'] r'] eqn:Ec.
+  intros H; inversion H; subst; clear H. cbn [s_q s_pend].
+  destruct (check_events_spec _ _ _ _ _ _ Ec) as (Hq & Hdue & _ & Hna & _). repeat split; assumption.
+Qed.
+
+(* 2b. ... and what is dequeued was created by an earlier schedule() with the due time it computed *)
+Theorem never_early_history t0 ops s d q' r :
+  snd (ev_run (ev_init t0) ops) = s -> ev_check_events (s_now s) (s_inv s) (s_q s) = (d, q', r) ->
+  Forall (fun x => In x (ev_created t0 0%N ops) /\ e_when x <= s_now s) d.
+Proof.
+  intros Hs Hc. destruct (check_events_spec _ _ _ _ _ _ Hc) as (Hq & Hdue & _).
+  rewrite Forall_forall in *. intros x Hx. split; [|apply Hdue; assumption].
+  assert (Hin : In x (s_pend s ++ s_q s)) by (apply in_or_app; right; rewrite Hq; apply in_or_app; auto).
+  rewrite <- Hs in Hin. apply run_members in Hin. cbn in Hin. destruct Hin; [contradiction|assumption].
+Qed.
+
+(* 3. due order, FIFO among equal due times *)
+Theorem fires_in_order s s1 r d : ev_reachable s -> ev_step s OCheck = (s1, RCheck r d) ->
+  StronglySorted ev_lt d /\ (forall x y, In x d -> In y (s_q s1) -> ev_lt x y).
+Proof.
+  intros Hr H. destruct (never_early s s1 r d H) as (_ & Hq & _).
+  destruct (queue_ordered s Hr) as (HS & _). rewrite Hq in HS. split.
+  - eapply sub_sorted; [|exact HS]. clear. induction d; cbn; [apply sub_nil_l | apply sub_keep; assumption].
+  - intros x y Hx Hy. eapply sorted_app_lt; eauto.
+Qed.
+
+(* 4. nothing due is left behind, except behind a heavy event *)
+Theorem check_takes_all_due s s1 r d : ev_reachable s -> ev_step s OCheck = (s1, RCheck r d) ->
+  (d = [] /\ (forall y, In y (s_q s) -> e_when y > s_now s)) \/
+  (exists d0 z, d = d0 ++ [z] /\ forallb (fun x => negb (ev_heavy (s_inv s) x)) d0 = true /\
+                (ev_heavy (s_inv s) z = true \/ forall y, In y (s_q s1) -> e_when y > s_now s)).
+Proof.
+  intros Hr H. destruct (queue_ordered s Hr) as (HS & _). revert H. cbn [ev_step].
+  destruct (ev_check_events (s_now s) (s_inv s) (s_q s)) as [[d' q'] r'] eqn:Ec.
+  intros H; inversion H; subst; clear H. cbn [s_q].
+  destruct (check_events_spec _ _ _ _ _ _ Ec) as (Hq & _ & _ & _ & Hmax).
+  assert (Hnd : forall l, StronglySorted ev_lt l -> ev_time_remaining (s_now s) l <> CRes 0 ->
+                          forall y, In y l -> e_when y > s_now s).
+  { intros l Hl Hn y Hy. destruct l as [|x l]; [contradiction|].
+    assert (Hx : e_when x > s_now s).
+    { destruct (Z_le_gt_dec (e_when x) (s_now s)) as [Hle|]; [|assumption].
+      exfalso. apply Hn. apply remaining_zero_iff. exists x, l. split; [reflexivity|assumption]. }
+    destruct Hy as [->|Hy]; [assumption|].
+    inversion Hl as [|? ? _ HF]; subst. rewrite Forall_forall in HF. specialize (HF y Hy).
+    apply ev_lt_when in HF. lia. }
+  destruct Hmax as [[Hd Hn] | (d0 & z & Hd & Hd0 & Hz)].
+  - left. split; [assumption|]. apply Hnd; assumption.
+  - right. exists d0, z. repeat split; try assumption. destruct Hz as [Hz|Hz]; [left; assumption|right].
+    apply Hnd; [|assumption]. rewrite Hq in HS. eapply sub_sorted; [apply sub_app_drop | exact HS].
+Qed.
+
+(* 5. schedule() only inserts, behind everything with the same or an earlier time *)
+Theorem schedule_inserts_stably s f a w wt cb s1 out : ev_reachable s ->
+  ev_step s (OSched f a w wt cb) = (s1, out) ->
+  let e := mkEv (s_next s) f a (ev_timestamp (s_now s) w) wt cb in
+  out = RSched (s_next s) /\
+  s_q s1 = filter (fun x => e_when x <=? e_when e) (s_q s) ++ e :: filter (fun x => e_when x >? e_when e) (s_q s) /\
+  s_pend s1 = s_pend s /\ s_now s1 = s_now s.
+Proof.
+  intros Hr H e. cbn [ev_step] in H. inversion H; subst; clear H. cbn [s_q s_pend s_now].
+  destruct (queue_ordered s Hr) as (HS & _). repeat split. apply insert_spec. assumption.
+Qed.
+
+(* 6. cancel leaves all others *)
+Theorem cancel_all_leaves_others s f s1 out : ev_step s (OCancel f 0%N) = (s1, out) ->
+  s_q s1 = filter (fun x => negb (e_func x =? f)%N) (s_q s) /\ out = RCancel false /\
+  s_pend s1 = s_pend s /\ s_now s1 = s_now s /\ s_next s1 = s_next s.
+Proof.
+  cbn [ev_step]. rewrite cancel_all_spec. intros H; inversion H; subst. cbn. repeat split.
+Qed.
+
+Theorem cancel_one_leaves_others s f a s1 out : a <> 0%N -> ev_step s (OCancel f a) = (s1, out) ->
+  s_pend s1 = s_pend s /\ s_now s1 = s_now s /\ s_next s1 = s_next s /\
+  ((forallb (ev_nomatch f a) (s_q s) = true /\ s_q s1 = s_q s /\ out = RCancel true) \/
+   (exists l1 x l2, s_q s = l1 ++ x :: l2 /\ forallb (ev_nomatch f a) l1 = true /\
+                    e_func x = f /\ e_arg x = a /\ s_q s1 = l1 ++ l2 /\ out = RCancel false)).
+Proof.
+  intros Ha. cbn [ev_step].
+  destruct (cancel_one_spec f a (s_q s) Ha) as [[Hall Hc] | (l1 & x & l2 & Hq & Hl1 & Hx & Hc)];
+    rewrite Hc; intros H; inversion H; subst; cbn [s_q s_pend s_now s_next]; repeat split.
+  - left. repeat split; assumption.
+  - right. exists l1, x, l2. unfold ev_nomatch in Hx.
+    assert (Hn : negb (a =? 0)%N = true) by (destruct (N.eqb_spec a 0); [contradiction | reflexivity]).
+    rewrite Hn in Hx. cbn [andb] in Hx. apply orb_false_elim in Hx. destruct Hx as [Hf Hg].
+    apply negb_false_iff in Hf, Hg. apply N.eqb_eq in Hf, Hg. repeat split; assumption.
+Qed.
+
+(* 7. an event removed by cancel() while still queued is never dequeued, queued or pending again *)
+Theorem cancelled_never_fires_partial s f a s1 out x ops : ev_reachable s ->
+  ev_step s (OCancel f a) = (s1, out) -> In x (s_q s) -> ~ In x (s_q s1) ->
+  let s2 := snd (ev_run s1 ops) in
+  ~ In (e_id x) (map e_id (s_pend s2 ++ s_q s2)) /\
+  forall d q' r, ev_check_events (s_now s2) (s_inv s2) (s_q s2) = (d, q', r) -> ~ In (e_id x) (map e_id d).
+Proof.
+  intros Hr H Hx Hnx s2. pose proof (reachable_inv s Hr) as (HS & HF & HN).
+  assert (Habs : ev_absent (e_id x) s1).
+  { revert H. cbn [ev_step]. destruct (ev_cancel f a (s_q s)) as [q' trap] eqn:Ec.
+    intros H; inversion H; subst; clear H. cbn [s_q] in Hnx.
+    pose proof (cancel_sub f a (s_q s)) as Hs. rewrite Ec in Hs. cbn [fst] in Hs.
+    split; cbn [s_next s_pend s_q].
+    - rewrite Forall_forall in HF. apply HF. apply in_or_app; right; assumption.
+    - intros Hin. apply in_map_iff in Hin. destruct Hin as (y & Hy & Hin).
+      assert (Hy' : In y (s_pend s ++ s_q s)) by (eapply sub_In; [apply sub_app_l; eassumption | assumption]).
+      assert (Hx' : In x (s_pend s ++ s_q s)) by (apply in_or_app; right; assumption).
+      assert (y = x) by (eapply NoDup_map_inj; eauto). subst y.
+      apply in_app_or in Hin. destruct Hin as [Hin|Hin]; [|contradiction].
+      eapply NoDup_map_app_disjoint; eauto. }
+  pose proof (run_absent (e_id x) ops s1 Habs) as (_ & Hni). fold s2 in Hni. split; [assumption|].
+  intros d q' r Hc Hin. destruct (check_events_spec _ _ _ _ _ _ Hc) as (Hq & _).
+  apply Hni. rewrite Hq, !map_app. apply in_or_app; right. apply in_or_app; left. assumption.
+Qed.
+
+(* 7b. after cancel(func, nullptr) every queued event of func was scheduled later *)
+Theorem cancel_all_then_only_new s f s1 out ops : ev_reachable s -> ev_step s (OCancel f 0%N) = (s1, out) ->
+  forall y, In y (s_q (snd (ev_run s1 ops))) -> e_func y = f ->
+  In y (ev_created (s_now s1) (s_next s1) ops) \/ In y (s_pend s).
+Proof.
+  intros Hr H y Hy Hf. destruct (cancel_all_leaves_others s f s1 out H) as (Hq & _ & Hp & _).
+  assert (Hin : In y (s_pend (snd (ev_run s1 ops)) ++ s_q (snd (ev_run s1 ops)))) by (apply in_or_app; auto).
+  apply run_members in Hin. destruct Hin as [Hin|Hin]; [|left; assumption].
+  apply in_app_or in Hin. destruct Hin as [Hin|Hin]; [right; rewrite <- Hp; assumption|].
+  exfalso. rewrite Hq in Hin. apply filter_In in Hin. destruct Hin as (_ & Hn).
+  rewrite Hf, N.eqb_refl in Hn. discriminate.
+Qed.
+
+(* 8. the literal statement "a cancelled event never fires" is false once checkEvents() has turned the
+      event into an AsyncCall: cancel() does not find it (debug_trap) and the handler still runs *)
+Theorem cancelled_never_fires_refuted :
+  exists ops, fst (ev_run (ev_init 0) ops) =
+    [RSched 0%N; RCheck (CRes ev_idle) [mkEv 0%N 1%N 1%N 0 0 false]; RCancel true; RDispatch [(1%N, 1%N)]].
+Proof. exists [OSched 1%N 1%N 0 0 false; OCheck; OCancel 1%N 1%N; ODispatch]. vm_compute. reflexivity. Qed.
+
+(* 9. timeRemaining *)
+Theorem time_remaining_spec now q :
+  match q with
+  | [] => ev_time_remaining now q = CRes ev_idle
+  | x :: _ =>
+    (e_when x <= now /\ ev_time_remaining now q = CRes 0) \/
+    (e_when x > now /\
+     ((1000 * (e_when x - now) > 1024 * ev_int_max /\ ev_time_remaining now q = CUndef) \/
+      (exists ms, ev_time_remaining now q = CRes ms /\ 1 <= ms <= ev_int_max /\
+                  1024 * ms >= 1000 * (e_when x - now) /\
+                  (ms = 1 \/ 1024 * (ms - 1) < 1000 * (e_when x - now)))))
+  end.
+Proof. exact (remaining_spec now q). Qed.
+
+(* 10. EventLoop::runOnce terminates within len+2 rounds, never trips assert(event); what it leaves is a
+       suffix of the queue *)
+Theorem loop_pass_total s s1 out : ev_step s OLoop = (s1, out) ->
+  out <> RLoop LFuel /\ out <> RLoop LAssert /\
+  forall q' i dl fr, out = RLoop (LDone q' i dl fr) -> exists dd, s_q s = dd ++ q' /\ s_q s1 = q' /\ s_pend s1 = [].
+Proof.
+  cbn [ev_step]. destruct (loop_once_spec (s_now s) (s_inv s) (s_q s) (s_pend s)) as (H1 & H2 & H3).
+  destruct (ev_loop_once (s_now s) (s_inv s) (s_q s) (s_pend s)) as [q' i dl fr| | |] eqn:El;
+    intros H; inversion H; subst; repeat split; try discriminate; try congruence.
+  intros q0 i0 dl0 fr0 Heq. inversion Heq; subst. destruct (H3 q0 i0 dl0 fr0 eq_refl) as [dd Hdd].
+  exists dd. cbn. auto.
+Qed.
+
+(* 11. dispatch runs the pending calls in the order they were dequeued, skipping those whose cbdata
+       argument has become invalid *)
+Theorem dispatch_in_order s s1 out : ev_step s ODispatch = (s1, out) ->
+  out = RDispatch (map (fun x => (e_func x, e_arg x)) (filter (ev_callable (s_inv s)) (s_pend s))) /\
+  s_pend s1 = [] /\ s_q s1 = s_q s.
+Proof. cbn [ev_step]. intros H; inversion H; subst. cbn. repeat split. Qed.
